@@ -34,7 +34,7 @@ def examples(tier):
 
 
 def case_cost(case):
-    return {"pairs07": 3, "pairs12": 2, "hw": 2, "fault": 4}.get(case["family"], 1)
+    return {"pairs07": 3, "pairs12": 2, "hw": 2, "fault": 4, "inst2": 2}.get(case["family"], 1)
 
 
 # ---- 'two holders + two waiters' programs --------------------------------------------------------
@@ -88,10 +88,44 @@ def enumerate_cases(tier):
                    "contents": [{"pat": "ab", "n": 5000}, {"hex": "5959"}], "docs": [{"hex": "6f6c64"}, {"hex": "6e6577"}],
                    "start": scen.prerequisites(kind) + [{"op": "store", "pid": scen.O1, "c": 1}], "kind": kind,
                    "target": scen.target_op(kind, 0)}
+    yield from _extra_cases(tier)
 
 
 MENU4 = c07.MENU + [{"op": "smeta", "pid": "p", "fmt": "f", "d": 0}, {"op": "dmeta", "pid": "p", "fmt": None},
                     {"op": "store", "pid": "q", "c": 1}, {"op": "tag", "pid": "r", "cid": {"of": 0}}]
+
+
+# calls that are REJECTED (odd but possible arguments): a rejected call, too, must leave nothing locked
+ODD = [{"op": "tag", "pid": "p", "cid": {"of": 0, "upper": True}}, {"op": "tag", "pid": "n", "cid": {"of": 0, "upper": True}},
+       {"op": "tag", "pid": "n", "cid": {"raw": "0" * 64}}, {"op": "tag", "pid": "a b", "cid": {"of": 0}},
+       {"op": "store", "pid": "n", "c": 0, "cks": "wrong"}, {"op": "store", "pid": "n", "c": 1, "size": "wrong"},
+       {"op": "store", "pid": "p", "c": 0, "cks": "wrong"}, {"op": "store", "pid": "n", "c": 0, "add": "sm3"},
+       {"op": "store", "pid": "n", "c": 0, "cks": "wrong", "cks_algo": "sm3"},
+       {"op": "store", "pid": " ", "c": 0}, {"op": "delete", "pid": "never-stored"}, {"op": "delete", "pid": "a\tb"},
+       {"op": "smeta", "pid": "p", "fmt": " ", "d": 0}, {"op": "dmeta", "pid": "never-stored", "fmt": "f"},
+       {"op": "dmeta", "pid": "never-stored", "fmt": None}, {"op": "hexd", "pid": "p", "algo": "sm3"},
+       {"op": "hexd", "pid": "never-stored", "algo": "md5"}, {"op": "retrieve", "pid": "never-stored"},
+       {"op": "rmeta", "pid": "p", "fmt": "no-such-format"}]
+REGULAR = [{"op": "store", "pid": "p", "c": 0}, {"op": "tag", "pid": "q", "cid": {"of": 0}}, {"op": "delete", "pid": "p"}]
+# the same identifiers through TWO FileHashStore instances opened on one directory in one process (e.g. two factory calls)
+INST2 = [({"op": "store", "pid": "p", "c": 0}, {"op": "delete", "pid": "p"}), ({"op": "store", "pid": "p", "c": 0}, {"op": "store", "pid": "q", "c": 0}),
+         ({"op": "tag", "pid": "p", "cid": {"of": 0}}, {"op": "tag", "pid": "q", "cid": {"of": 0}}),
+         ({"op": "delete", "pid": "p"}, {"op": "delete", "pid": "q"}), ({"op": "delete", "pid": "p"}, {"op": "tag", "pid": "p", "cid": {"of": 1}}),
+         ({"op": "smeta", "pid": "p", "fmt": "f", "d": 0}, {"op": "dmeta", "pid": "p", "fmt": "f"}),
+         ({"op": "smeta", "pid": "p", "fmt": "f", "d": 0}, {"op": "smeta", "pid": "p", "fmt": "f", "d": 1}),
+         ({"op": "store", "pid": "p", "c": 0}, {"op": "dii", "c": 0, "cks": "wrong"})]
+
+
+def _extra_cases(tier):
+    docs = [{"hex": "6f6c64"}, {"hex": "6e6577"}]
+    for sname in ("p=X", "X-unreferenced", "p=X,q=X") if tier == "quick" else sorted(c07.STARTS):
+        for odd in ODD:
+            yield dict(BASE, docs=docs, family="odd", start_name=sname, start=c07.STARTS[sname], calls=[odd])
+            for reg in (REGULAR[:1] if tier == "quick" else REGULAR):
+                yield dict(BASE, docs=docs, family="odd", start_name=sname, start=c07.STARTS[sname], calls=[odd, reg])
+    for sname in ("empty", "p=X", "p=X,q=X"):
+        for a, b in INST2:
+            yield dict(BASE, docs=docs, family="inst2", start_name=sname, start=c07.STARTS[sname], calls=[a, b])
 
 
 @st.composite
@@ -122,7 +156,7 @@ def followups(calls):
     return out
 
 
-def judge(ctx, world, desc, calls, ex, sig, follow=True):
+def judge(ctx, world, desc, calls, ex, sig, follow=True, extra_follow=()):
     """ex must have been run with keep_dir=True."""
     try:
         if ex.deadlock:
@@ -133,8 +167,11 @@ def judge(ctx, world, desc, calls, ex, sig, follow=True):
         if ex.locks:
             ctx.violation("identifier-left-locked", f"{desc}: after all calls returned (outcomes {ex.outcomes}) the store "
                           f"still lists {ex.locks} as locked", dict(sig, failure="left-locked"))
-        for f in (followups(calls) if follow else []):
-            fx = conc.run_program(world, [f], [0], [], on=(ex.dir, ex.store), keep_dir=True)
+        fl = [(f, ex.store) for f in (list(extra_follow) + followups(calls) if follow else [])]
+        for st in (getattr(ex, "stores", None) or [])[1:]:
+            fl += [(f, st) for f in (followups(calls) if follow else [])]
+        for f, st in fl:
+            fx = conc.run_program(world, [f], [0], [], on=(ex.dir, st), keep_dir=True)
             if fx.deadlock:
                 ctx.violation("follow-up-blocked", f"{desc}: outcomes {ex.outcomes}; the follow-up call {f} on the same "
                               f"store instance blocks forever: {fx.deadlock}", dict(sig, failure="follow-up-blocked"))
@@ -154,15 +191,26 @@ def run_case(case, ctx):
     if fam == "fault":
         return _fault_case(case, ctx)
     world = conc.World(case, ctx)
-    if fam in ("pairs07", "pairs12"):
+    if fam == "odd" and len(case["calls"]) == 1:
+        calls = case["calls"]
+        ex = conc.run_program(world, calls, [0], [], keep_dir=True)
+        ctx.count()
+        desc = f"[rejected call alone] start={case['start_name']} call={calls[0]} outcome={ex.outcomes[0]}"
+        judge(ctx, world, desc, calls, ex, {"family": "odd", "ops": [conc.op_pattern(calls[0], world)]}, extra_follow=[calls[0]])
+        ctx.classify("rejected-call-alone")
+        if ex.outcomes[0][0] == "err":
+            ctx.nontrivial(["odd", case["start_name"], str(calls[0]), ex.outcomes[0]])
+        return
+    if fam in ("pairs07", "pairs12", "odd", "inst2"):
         calls = case["calls"]
         n = 0
+        inst = [0, 1] if fam == "inst2" else None
         for first in (0, 1):
             order = [first, 1 - first]
             i = 0
             while True:
                 pre = [(i, 0)] if i else []
-                ex = conc.run_program(world, calls, order, pre, keep_dir=True)
+                ex = conc.run_program(world, calls, order, pre, keep_dir=True, instances=inst)
                 if i and ex.used_preemptions == 0:
                     shutil.rmtree(ex.dir, ignore_errors=True)
                     break
@@ -171,7 +219,8 @@ def run_case(case, ctx):
                 desc = f"[{fam}] start={case['start_name']} program={_prog(world, calls)} order={order} preemptions={pre}"
                 # follow-up calls (the robust but costly part of the oracle) run on every 6th schedule (every 3rd when a thread waited) and
                 # whenever something unusual happened; the lock lists are inspected after every execution
-                follow = case.get("all_followups") or i % 6 == 0 or bool(ex.locks) or (any(ex.waited) and i % 3 == 0)
+                follow = case.get("all_followups") or i % 6 == 0 or bool(ex.locks) or (any(ex.waited) and i % 3 == 0) \
+                    or (fam == "inst2" and i % 2 == 0)
                 judge(ctx, world, desc, calls, ex, {"family": fam, "ops": sorted(conc.op_pattern(c, world) for c in calls)},
                       follow=follow)
                 if follow:
@@ -179,6 +228,8 @@ def run_case(case, ctx):
                 if any(ex.waited):
                     ctx.classify("some-thread-waited")
                     ctx.nontrivial([fam, case["start_name"], _prog(world, calls), order, pre])
+                elif fam in ("odd", "inst2") and pre:
+                    ctx.nontrivial([fam, case["start_name"], [str(c) for c in calls], order, pre, ex.outcomes])
                 i += 1
         ctx.classify(f"{fam}-programs")
         ctx.classify(f"{fam}-schedules", n)
